@@ -153,8 +153,8 @@ theorem ChanSteps.cap {c c'} (h : ChanSteps c c') : c'.cap = c.cap := by
 def Label.isPlain : Label → Bool
   | .mk _ _ _ | .upgrade _ _ | .detach _ _ | .drop _ | .stopReq _ _ | .restartReq _ _ | .query _ _
   | .cbEnd _ _ | .cbAbandon _ | .cbPanic _ | .vnew _ | .work _ | .ctxStop _ | .ctxRestart _
-  | .ctxTimer _ _ _ | .ctxWeak _ _ | .fire _ _ | .time _ | .streamReady _ | .streamEnd
-  | .quiescent _ | .tChanEnd | .tStreamEnd | .tTimerArm _ | .tTimerWake _ | .tTimerSent _ => true
+  | .ctxTimer _ _ _ | .ctxWeak _ _ | .fire _ _ | .timerArm _ _ | .timerEnd _ | .time _ | .streamReady _
+  | .streamEnd | .quiescent _ | .tChanEnd | .tStreamEnd => true
   | _ => false
 
 theorem step_plain {w s l s'} (hl : l.isPlain = true) (hs : step w s l = some s') :
@@ -183,9 +183,8 @@ theorem step_plain {w s l s'} (hl : l.isPlain = true) (hs : step w s l = some s'
   case quiescent => simp at hs; subst hs; exact .inl rfl
   case tChanEnd => exact .inl (stepChanEnd_chan hs)
   case tStreamEnd => exact .inl (stepStreamEndTau_chan hs)
-  case tTimerArm => exact .inl (stepTimerArm_chan hs)
-  case tTimerWake => exact stepTimerWake_chan hs
-  case tTimerSent => exact .inl (stepTimerSent_chan hs)
+  case timerArm => exact stepTimerArm_chan hs
+  case timerEnd => exact .inl (stepTimerEnd_chan hs)
 
 theorem eq_of_nodup_o : ∀ {l : List OpRec}, (l.map (·.o)).Nodup → ∀ {a b}, a ∈ l → b ∈ l → a.o = b.o → a = b
   | [], _, _, _, ha, _, _ => by simp at ha
